@@ -303,7 +303,7 @@ theorem cases_succ (ih : StmtIH fuel) (E : ∀ fuel, ExprIH fuel) (ctx : Ctx) (t
 theorem incDec_ok {v : Var} (hv : v.vt = ⟨.int, false⟩) (b : Bool) : stmtP (incDecStmt v b) := by
   cases b <;>
     simp [stmtP, incDecStmt, PT.stmt, PT.vals1, PT.expr, PT.callArity1, PT.varsMatch, PT.varsKnown, Expr.valueType, hv,
-      ValueType.equals, binaryAllowed, PT.known]
+      ValueType.equals, binaryAllowed, PT.known, PT.hasValue]
 
 def optP (o : Option Stmt) : Prop := PT.opt o = true
 theorem optP.out {o : Option Stmt} (h : optP o) : PT.opt o = true := h
@@ -357,7 +357,23 @@ theorem for_succ (ih : StmtIH fuel) (E : ∀ fuel, ExprIH fuel) (ctx : Ctx) (hc 
         refine Post.bind' (P := fun c => CtxOK c) (Post.ofOpt (fun c h => hc1.addVars (by simp [PT.varsKnown, hkn]) h)) ?_
         intro ctx2 hc2
         refine Post.pure' ⟨hc2, ?_⟩
-        simp [stmtsP, PT.stmts, PT.stmt, PT.vals1, PT.varsMatch, PT.varsKnown, hel.1.out, hel.2.1, hel.2.2.1, hkn]
+        have hu : PT.hasValue el = true := by
+          have he := hel.2.2.1
+          simp only [ValueType.equals, Bool.and_eq_true, beq_iff_eq] at he
+          have hk := expr_known iterable hit
+          apply hasValue_of_dt <;> rw [← he.1]
+          · rcases hel.2.2.2 with h | h
+            · simp only [ValueType.isString, Bool.and_eq_true, beq_iff_eq] at h
+              rw [h.1]; simp
+            · intro hdt
+              simp [PT.known, hdt, h] at hk
+          · rcases hel.2.2.2 with h | h
+            · simp only [ValueType.isString, Bool.and_eq_true, beq_iff_eq] at h
+              rw [h.1]; simp
+            · intro hdt
+              simp [PT.known, hdt, h] at hk
+        have h1 : PT.vals1 [el] = true := vals1_cons.mpr ⟨hel.1.out, hel.2.1, hu, rfl⟩
+        simp [stmtsP, PT.stmts, PT.stmt, h1, PT.varsMatch, PT.varsKnown, hel.2.2.1, hkn]
       · exact Post.pure' ⟨hc1, rfl⟩
     rintro ⟨ctx3, pre⟩ ⟨hc3, hpre⟩
     dsimp only at hc3 hpre ⊢
@@ -369,7 +385,7 @@ theorem for_succ (ih : StmtIH fuel) (E : ∀ fuel, ExprIH fuel) (ctx : Ctx) (hc 
     have hlen : ((Expr.valueType iterable).isString || (Expr.valueType iterable).isSlice) = true := by
       rcases hel.2.2.2 with h | h <;> simp [h]
     simp [stmtP, PT.stmt, PT.opt, PT.vals1, PT.expr, PT.callArity1, PT.varsMatch, PT.varsKnown, Expr.valueType, vtInt,
-      ValueType.equals, PT.known, PT.cmpAllowed, ValueType.isBool, hit.out, hlen, hb.out]
+      ValueType.equals, PT.known, PT.cmpAllowed, ValueType.isBool, hit.out, hlen, hb.out, PT.hasValue]
     exact h1
   · pm_bind; intro three
     refine Post.bind' (P := fun (x : Ctx × Option Stmt × Expr × Option Stmt) =>
